@@ -127,9 +127,15 @@ PROFILES = {
     "C02": [("streams", dict(n_defs=(4, 14), samples=0.1, self_merge=True,
                              weights=W(map=5, mapto=1, filter=3, filteropt=1, merge=6, orelse=2, snapshot=3, snapshot1=1, snapshotn=1.5, gate=2, once=2,
                                        hold=1.5, mapc=0.5, lift2=0.5, liftn=0, accum=0.5, collect=0.3, value=0.3, updates=1))),
-            ("streams-intxn", dict(n_defs=(3, 10), intxn_defs=0.5, self_merge=True, weights=W(once=3, merge=6, gate=2)))],
+            ("streams-intxn", dict(n_defs=(3, 10), intxn_defs=0.5, self_merge=True, weights=W(once=3, merge=6, gate=2))),
+            # events re-emitted by defer/split/post in transactions of their own, meeting streams derived from the same source
+            ("streams-deferred", dict(n_defs=(5, 12), n_listen=(2, 5), max_defer=2, posts=0.2, nest=0.6, self_merge=True,
+                                      weights=W(defer=5, split=2, map=5, filter=2, merge=7, orelse=3, snapshot=2, hold=1.5, gate=1, once=1)))],
     "C03": [("diamonds", dict(n_defs=(6, 16), sends_per_txn=(2, 4), samples=0.3, wfchecks=0.5, intxn_defs=0.3, n_listen=(2, 5),
-                              weights=W(lift2=6, liftn=2, merge=6, snapshot=3, mapc=3, map=3, csink=4, ssink=4, hold=2, switchs=1, switchc=1, sloop=0.7, cloop=0.7)))],
+                              weights=W(lift2=6, liftn=2, merge=6, snapshot=3, mapc=3, map=3, csink=4, ssink=4, hold=2, switchs=1, switchc=1, sloop=0.7, cloop=0.7))),
+            # a deferred transaction right behind the one that spawned it: nothing of the first may be seen by the second
+            ("diamonds-deferred", dict(n_defs=(6, 14), sends_per_txn=(1, 3), samples=0.3, n_listen=(2, 5), max_defer=2, posts=0.2,
+                                       weights=W(defer=4, split=1.5, lift2=4, merge=7, orelse=2, snapshot=3, mapc=2, map=4, csink=3, ssink=4, hold=2)))],
     "C04": [("cells", dict(samples=0.9, n_txn=(5, 20), intxn_defs=0.3, n_listen=(0, 2),
                            weights=W(hold=4, holdlazy=1.5, accum=3, collect=3, accumlazy=1.5, collectlazy=1, snapshot=4, csink=3, gate=1.5, mapc=1, lift2=1))),
             ("cells-deferred", dict(samples=0.6, n_txn=(4, 12), posts=0.4, max_defer=2, n_listen=(1, 3), sends_per_txn=(1, 3),
@@ -238,11 +244,22 @@ def impl_predicates(pid, script, hl):
     return None
 
 
+SMALL_SCOPE_DEEP = ("C02", "C04", "C05", "C13")     # thorough tier: every 3-definition program; others every 2-definition program
+
+
+def small_scope(pid, tier):
+    import apienum
+    k = 3 if (tier == "thorough" and pid in SMALL_SCOPE_DEEP) else 2
+    return k, list(apienum.programs(k, sample=True))
+
+
 def run_api_prop(pid, tier, seed, extra_corpus=()):
     t0 = time.time()
     corp = [(f, s) for f, s in corpus("api", pid)]
     scripts = [s for _, s in corp]
     gen, tags = gen_scripts(pid, tier, seed)
+    ssk, ss = small_scope(pid, tier)
+    gen = gen + ss
     scripts += gen
     runs, bad, rc, herr = compare(scripts)
     viols = []
@@ -282,7 +299,10 @@ def run_api_prop(pid, tier, seed, extra_corpus=()):
     st = stats(gen)
     nontriv = len({tuple(s) for s in gen if any(l.startswith("send") for l in s) and any(l.startswith("listen") for l in s)})
     cov = {"evaluations": len(scripts), "distinct_nontrivial": nontriv,
-           "rule": f"API scripts: corpus ({len(corp)}) + type-directed random programs under profile(s) {[p[0] for p in PROFILES[pid]]} (every 10th with malformed lines); "
+           "exhaustive_small_scope": {"programs": len(ss), "definitions_per_program": ssk,
+                                      "rule": "EVERY program of that many definitions over 20 primitives and every choice of operands among the names defined so far, on a base of a stream sink, "
+                                              "a cell sink and a coalescing sink, a listener on everything (one registered late), six transactions (single, simultaneous, repeated sends), cells sampled after each"},
+           "rule": f"API scripts: corpus ({len(corp)}) + exhaustive small-scope programs ({len(ss)}) + type-directed random programs under profile(s) {[p[0] for p in PROFILES[pid]]} (every 10th with malformed lines); "
                    "each executed on the real library (harness api) and on the Lean specification S (driver spec), outputs compared line by line; non-trivial = has a listener and a send; distinct by script text",
            "samples": [" ; ".join(gen[0]), " ; ".join(gen[-1])],
            "correspondence": {"level": "L-api (implementation vs S)", "scripts": len(scripts), "disagreements": len(bad),
